@@ -221,7 +221,7 @@ func loopDirection(idx ssa.Value) string {
 	for _, e := range phi.Edges {
 		switch x := e.(type) {
 		case *ssa.Const:
-			if x.Int64() == 0 && dir != "down" {
+			if safeInt64(x) == 0 && dir != "down" {
 				dir = "up"
 			}
 		case *ssa.BinOp:
